@@ -43,8 +43,21 @@ def coq_batch(b):
             f"b_records := [{'; '.join(coq_record(r) for r in b['records'])}] |}}")
 
 
-def py_record(r):
-    from kio.records.schema import Record, RecordHeader
+def py_record(r, pool=None):
+    """pool: objects already built for this batch, by content - records with equal headers / keys / values then hold the SAME
+    tuple and bytes objects, as they do in a producer that reuses them"""
+    from kio.records.schema import Record, RecordHeader as _RH
+
+    def RecordHeader(key, value):
+        if pool is None:
+            return _RH(key=key, value=value)
+        return pool.setdefault(("h", key, value), _RH(key=key, value=value))
+
+    def tuple_(it):
+        t = tuple(it)
+        return t if pool is None else pool.setdefault(("t", tuple((h.key, h.value) for h in t)), t)
+    if pool is not None:
+        r = dict(r, key=pool.setdefault(("b", r["key"]), r["key"]), value=pool.setdefault(("b", r["value"]), r["value"]))
 
     if r.get("tzoffset") is not None:
         # a fixed-offset zone, built from the local wall time: the instant (r["timestamp"], in UTC) may lie beyond
@@ -53,7 +66,7 @@ def py_record(r):
         local = datetime.datetime(1970, 1, 1) + datetime.timedelta(microseconds=r["timestamp"] + off * 60 * 10**6)
         ts = local.replace(tzinfo=datetime.timezone(datetime.timedelta(minutes=off)))
         return Record(attributes=r["attributes"], timestamp=ts, offset=r["offset"], key=r["key"], value=r["value"],
-                      headers=tuple(RecordHeader(key=k, value=v) for k, v in r["headers"]))
+                      headers=tuple_(RecordHeader(key=k, value=v) for k, v in r["headers"]))
     ts = EPOCH + datetime.timedelta(microseconds=r["timestamp"])
     if r.get("tz"):
         import zoneinfo
@@ -62,7 +75,7 @@ def py_record(r):
     return Record(
         attributes=r["attributes"], timestamp=ts,
         offset=r["offset"], key=r["key"], value=r["value"],
-        headers=tuple(RecordHeader(key=k, value=v) for k, v in r["headers"]))
+        headers=tuple_(RecordHeader(key=k, value=v) for k, v in r["headers"]))
 
 
 def abs_record(r):
@@ -76,7 +89,7 @@ def py_new_batch(nb):
     return NewRecordBatch(
         producer_id=nb["producer_id"], producer_epoch=nb["producer_epoch"],
         partition_leader_epoch=nb["partition_leader_epoch"], base_sequence=nb["base_sequence"],
-        records=tuple(py_record(r) for r in nb["records"]), attributes=nb["attributes"])
+        records=(lambda pool: tuple(py_record(r, pool) for r in nb["records"]))({}), attributes=nb["attributes"])
 
 
 def nb_to_json(nb):
@@ -104,7 +117,8 @@ def py_batch(b):
     from kio.records.schema import RecordBatch
 
     kw = {k: b[k] for k in b if k != "records"}
-    return RecordBatch(records=tuple(py_record(r) for r in b["records"]), **kw)
+    pool = {}
+    return RecordBatch(records=tuple(py_record(r, pool) for r in b["records"]), **kw)
 
 
 def gen_blob(r: random.Random, big=False):
@@ -134,6 +148,17 @@ def gen_new_batch(r: random.Random, canonical_ms=True):
             "headers": ([(gen_blob(r), gen_blob(r)) for _ in range(r.choice([0, 0, 1, 3]))] if r.random() > 0.04 or n > 12 else
                         # header COUNT at the zig-zag varint edges (64 needs two bytes), tiny headers
                         [(r.choice([None, b"", b"k"]), r.choice([None, b"", b"v"])) for _ in range(r.choice([63, 64, 65, 127, 128]))])})
+    if n >= 3 and r.random() < 0.2:
+        # a producer that attaches ONE shared headers tuple (tracing, content type) to its records, with a record in between
+        # carrying other headers: the records share the very same tuple / bytes objects (py_new_batch interns by content)
+        common = [(b"content-type", b"application/json"), (b"trace-id", bytes(r.getrandbits(8) for _ in range(8)))][: r.choice([1, 2])]
+        odd = r.randrange(1, n - 1)
+        for k, rec in enumerate(recs):
+            rec["headers"] = list(common) + ([(b"retry", b"1")] if k == odd else []) if r.random() > 0.1 or k in (0, odd, n - 1) else []
+        if r.random() < 0.5:
+            shared_key = gen_blob(r)
+            for rec in recs[::2]:
+                rec["key"] = shared_key
     if r.random() < 0.04:
         # "end of time" sentinels: local 9999-12-31T23:59:59 in zones behind UTC (the instant is beyond datetime.max in UTC,
         # its millisecond count still fits an int64 easily), and ordinary times in fixed-offset zones
